@@ -164,6 +164,7 @@ func c08Run(c *runner.Ctx) {
 	for si, sg := range w.Segs {
 		fields := append([]string{}, sg.X.Fields...)
 		fields = append(fields, "no-such-field", "")
+		var prevPL segment.PostingsList // carried across fields: a list used on a known field is re-used on an unknown one
 		for _, f := range fields {
 			known := sg.X.HasField(f)
 			terms := sg.X.Terms(f) // sorted
@@ -311,7 +312,6 @@ func c08Run(c *runner.Ctx) {
 			}
 			// the lookups alternate between a fresh list and re-using the previous probe's list as prealloc
 			// (present 1-hit / general term followed by an absent one and vice versa)
-			var prevPL segment.PostingsList
 			r.Shuffle(len(probe), func(i, j int) { probe[i], probe[j] = probe[j], probe[i] })
 			for pi, t := range probe {
 				c.Eval(1)
